@@ -14,15 +14,16 @@ theorem conflict_false_of_all {f : SDir} {F : List Cls} {toks : List Tok}
 
 theorem parseDir_printDir (D : Defs) (op : OpInst) (d : Dir) (ds : List Dir) (K : List Cls)
     (tail : List Tok) (st : PState)
-    (hwf : wfD (d :: ds) K = true) (hfrag : fragD (d :: ds) = true) (hv : ValidD op (d :: ds))
+    (hwf : wfD (d :: ds) K = true) (hfrag : fragD (d :: ds) = true) (ha : wfA D (d :: ds) = true)
+    (hv : ValidD D op (d :: ds))
     (htail : clsHd tail ∈ firstD ds K) :
     parseDir D d (printDir D op d ++ tail) st = some (replayDir D op d st, tail) := by
   cases d with
   | s d =>
     simp only [wfD, Bool.and_eq_true] at hwf
-    simp only [fragD, Bool.and_eq_true] at hfrag
+    simp only [wfA, Bool.and_eq_true] at ha
     obtain ⟨⟨_, hfol⟩, _⟩ := hwf
-    obtain ⟨b, hb⟩ := parseS_printS D op d tail st hfrag.1 hv.1.1
+    obtain ⟨b, hb⟩ := parseS_printS D op d tail st hv.1.1 ha.1
       (followOK_of_okFollow hfol htail)
     simp [parseDir, printDir, replayDir, hb]
   | group a f r e =>
@@ -41,8 +42,8 @@ theorem parseDir_printDir (D : Defs) (op : OpInst) (d : Dir) (ds : List Dir) (K 
       simp only [wfSeq, Bool.and_eq_true] at hwfT
       obtain ⟨hfolF, hwfR⟩ := hwfT
       have hfr : ∀ x ∈ r, inFragment x = true := fun x hx => hfragT x (List.mem_cons_of_mem _ hx)
-      have hir : ∀ x ∈ r, okInst op x := fun x hx => (hv1 x (List.mem_cons_of_mem _ hx)).1
-      have hfirstR := clsHd_printSeq D op r (firstD ds K) tail hfr hir htail
+      have hir : ∀ x ∈ r, okInst D op x := fun x hx => (hv1 x (List.mem_cons_of_mem _ hx)).1
+      have hfirstR := clsHd_printSeq D op r (firstD ds K) tail hir htail
       have hpa : printS D op a ≠ [] → True := fun _ => trivial
       have hnef : printS D op f ≠ [] := by
         rcases Bool.or_eq_true .. |>.mp hlit with h | h
@@ -58,8 +59,8 @@ theorem parseDir_printDir (D : Defs) (op : OpInst) (d : Dir) (ds : List Dir) (K 
       have hp' : presentS op a = false := by simpa using hp
       simp only [GroupCons, hp, if_false] at hcons
       have hfe : ∀ x ∈ e, inFragment x = true := fun x hx => mem_all hf3 hx
-      have hie : ∀ x ∈ e, okInst op x := fun x hx => (hv2 x hx).1
-      have hfirstE := clsHd_printSeq D op e (firstD ds K) tail hfe hie htail
+      have hie : ∀ x ∈ e, okInst D op x := fun x hx => (hv2 x hx).1
+      have hfirstE := clsHd_printSeq D op e (firstD ds K) tail hie htail
       have h1 := parseOptS_absent D op f (printSeq D op e ++ tail) st hfirst
         (hcons f (List.mem_cons_self ..)) (conflict_false_of_all hunt hfirstE)
       have h2 := parseSeq_printSeq D op e (firstD ds K) tail (setEmptySeq (replayS D op f st) r) hwfE hfe hie
@@ -70,23 +71,32 @@ theorem wfD_tail {d : Dir} {ds : List Dir} {K : List Cls} (h : wfD (d :: ds) K =
   cases d <;> simp only [wfD, Bool.and_eq_true] at h <;> exact h.2
 
 theorem fragD_tail {d : Dir} {ds : List Dir} (h : fragD (d :: ds) = true) : fragD ds = true := by
-  cases d <;> simp only [fragD, Bool.and_eq_true] at h <;> exact h.2
+  cases d with
+  | s d => exact h
+  | group a f r e => simp only [fragD, Bool.and_eq_true] at h; exact h.2
 
-theorem validD_tail {op : OpInst} {d : Dir} {ds : List Dir} (h : ValidD op (d :: ds)) : ValidD op ds := by
+theorem wfA_tail {D : Defs} {d : Dir} {ds : List Dir} (h : wfA D (d :: ds) = true) : wfA D ds = true := by
+  cases d with
+  | s d => simp only [wfA, Bool.and_eq_true] at h; exact h.2
+  | group a f r e => exact h
+
+theorem validD_tail {D : Defs} {op : OpInst} {d : Dir} {ds : List Dir} (h : ValidD D op (d :: ds)) :
+    ValidD D op ds := by
   cases d with
   | s d => exact h.2
   | group a f r e => exact h.2.2.2
 
 /-- Stage 1. -/
 theorem parseD_printD (D : Defs) (op : OpInst) (fmt : List Dir) (K : List Cls) (rest : List Tok) (st : PState)
-    (hwf : wfD fmt K = true) (hfrag : fragD fmt = true) (hv : ValidD op fmt) (hK : clsHd rest ∈ K) :
+    (hwf : wfD fmt K = true) (hfrag : fragD fmt = true) (ha : wfA D fmt = true) (hv : ValidD D op fmt)
+    (hK : clsHd rest ∈ K) :
     parseD D fmt (printD D fmt op ++ rest) st = some (replayD D op fmt st, rest) := by
   induction fmt generalizing st with
   | nil => simp [parseD, printD, replayD]
   | cons d ds ih =>
-    have htail := clsHd_printD D op ds K rest (fragD_tail hfrag) (validD_tail hv) hK
-    have h1 := parseDir_printDir D op d ds K (printD D ds op ++ rest) st hwf hfrag hv htail
+    have htail := clsHd_printD D op ds K rest (validD_tail hv) hK
+    have h1 := parseDir_printDir D op d ds K (printD D ds op ++ rest) st hwf hfrag ha hv htail
     simp only [printD, List.append_assoc, parseD, h1, replayD]
-    exact ih _ (wfD_tail hwf) (fragD_tail hfrag) (validD_tail hv)
+    exact ih _ (wfD_tail hwf) (fragD_tail hfrag) (wfA_tail ha) (validD_tail hv)
 
 end Xdsl.DeclFormat
